@@ -464,6 +464,23 @@ def whole_absorptions(F, ck, trs):
         ck.ob('R04.6', 'encoder:%s' % f.qual, not bad, 'encodes the whole digest' if not bad else
               'LOSSY ENCODER: %s uses %s: part of the digest is dropped before absorption, so two different commitments produce the same challenges' % (f.qual, ','.join(bad)), '%s:%d' % (f.file, f.line))
 
+    # the transcript encoding of the FRI reduction strategy: every parameter of every variant reaches the output as itself
+    AGG = {'sum', 'product', 'fold', 'max', 'min', 'count', 'last', 'first', 'len', 'reduce', 'any', 'all', 'is_empty', 'is_some', 'is_none'}
+    sz = [f for f in F.find('FriReductionStrategy::serialize', crate='plonky2') if f.body is not None]
+    if not sz:
+        ck.ob('R04.6', 'encoder:FriReductionStrategy::serialize', False, 'ANCHOR-MISSING FriReductionStrategy::serialize')
+    else:
+        agg = sorted({x['n'] for f_ in sz for x in walk(f_.body) if x.get('k') == 'MCall' and x.get('n') in AGG})
+        ck.ob('R04.6', 'encoder:FriReductionStrategy::serialize', not agg, 'every parameter is encoded element by element' if not agg else
+              'LOSSY ENCODER: FriReductionStrategy::serialize condenses a parameter with %s(): different reduction schedules get the same transcript encoding (STARK transcripts absorb the strategy only through this encoding)' % ', '.join(agg),
+              '%s:%d' % (sz[0].file, sz[0].line))
+
+    # the sponge permutations behind the challengers read their whole state (R13.8 of C13: a permutation that hashes only the rate part
+    # forgets everything absorbed before the last block)
+    ck.rule('R04.7', 'the permutation behind every challenger reads its whole state, rate and capacity (R13.8 of C13)')
+    from . import c13, report
+    c13.run(F, report.FilterProxy(ck, {'R13.8': 'R04.7'}), 'quick')
+
 
 def _all_lets_env(E, fn):
     from . import poly
